@@ -539,41 +539,53 @@ class BaseNode402(RemoteNode):
         :raises RuntimeError: If the switch is not confirmed within the configured timeout.
         :raises ValueError: Trying to execute a illegal transition in the state machine.
         """
+        # Read the statusword only once, it may change between two accesses
+        statusword = self.statusword
         for state, mask_val_pair in State402.SW_MASK.items():
             bitmask, bits = mask_val_pair
-            if self.statusword & bitmask == bits:
+            if statusword & bitmask == bits:
                 return state
         return 'UNKNOWN'
 
     @state.setter
     def state(self, target_state):
         timeout = time.monotonic() + self.TIMEOUT_SWITCH_STATE_FINAL
-        while self.state != target_state:
-            next_state = self._next_state(target_state)
-            if self._change_state(next_state):
+        while True:
+            # Decide on one reading of the drive state per step
+            from_state = self.state
+            if from_state == target_state:
+                break
+            next_state = self._next_state(target_state, from_state)
+            if self._change_state(next_state, from_state):
                 continue
             if time.monotonic() > timeout:
                 raise RuntimeError('Timeout when trying to change state')
             self.check_statusword()
 
-    def _next_state(self, target_state):
+    def _next_state(self, target_state, from_state=None):
         if target_state in ('NOT READY TO SWITCH ON',
                             'FAULT REACTION ACTIVE',
                             'FAULT'):
             raise ValueError(
                 f'Target state {target_state} cannot be entered programmatically')
-        from_state = self.state
+        if from_state is None:
+            from_state = self.state
         if (from_state, target_state) in State402.TRANSITIONTABLE:
             return target_state
         else:
             return State402.next_state_indirect(from_state)
 
-    def _change_state(self, target_state):
+    def _change_state(self, target_state, from_state=None):
+        if from_state is None:
+            from_state = self.state
+        if from_state == target_state:
+            # An automatic transition of the drive already took place
+            return True
         try:
-            self.controlword = State402.TRANSITIONTABLE[(self.state, target_state)]
+            self.controlword = State402.TRANSITIONTABLE[(from_state, target_state)]
         except KeyError:
             raise ValueError(
-                f'Illegal state transition from {self.state} to {target_state}')
+                f'Illegal state transition from {from_state} to {target_state}')
         timeout = time.monotonic() + self.TIMEOUT_SWITCH_STATE_SINGLE
         while self.state != target_state:
             if time.monotonic() > timeout:
